@@ -313,18 +313,35 @@ func reach(start point, target func(ssa.Instruction) bool, cut map[edge]bool, st
 		st     state
 		from   int
 		assume map[ssa.Value]bool
+		known  map[*ssa.Phi]*ssa.Const // phi values whose incoming edge on this path was a constant
 		prev   *node
 	}
-	keyOf := func(m map[ssa.Value]bool) string {
-		if len(m) == 0 {
+	keyOf := func(m map[ssa.Value]bool, k map[*ssa.Phi]*ssa.Const) string {
+		if len(m) == 0 && len(k) == 0 {
 			return ""
 		}
 		var parts []string
 		for v, t := range m {
 			parts = append(parts, fmt.Sprintf("%s=%v", v.Name(), t))
 		}
+		for v, c := range k {
+			parts = append(parts, fmt.Sprintf("%s:=%s", v.Name(), c.String()))
+		}
 		sort.Strings(parts)
 		return strings.Join(parts, ",")
+	}
+	// phis that are compared with a constant somewhere (only those are worth tracking)
+	cmpPhis := map[*ssa.Phi]bool{}
+	for _, b := range fn.Blocks {
+		if len(b.Instrs) == 0 {
+			continue
+		}
+		if i, ok := b.Instrs[len(b.Instrs)-1].(*ssa.If); ok {
+			ci := decompose(i.Cond)
+			if p, ok := ci.Root.(*ssa.Phi); ok && (ci.Const != nil || ci.Op == token.ILLEGAL) {
+				cmpPhis[p] = true
+			}
+		}
 	}
 	scan := func(b *ssa.BasicBlock, from int) (ssa.Instruction, bool) {
 		for i := from; i < len(b.Instrs); i++ {
@@ -346,7 +363,7 @@ func reach(start point, target func(ssa.Instruction) bool, cut map[edge]bool, st
 		return p
 	}
 	visited := map[state]bool{}
-	queue := []*node{{st: state{start.Block, ""}, from: start.Idx, assume: map[ssa.Value]bool{}}}
+	queue := []*node{{st: state{start.Block, ""}, from: start.Idx, assume: map[ssa.Value]bool{}, known: map[*ssa.Phi]*ssa.Const{}}}
 	first := true
 	for len(queue) > 0 {
 		n := queue[0]
@@ -371,9 +388,30 @@ func reach(start point, target func(ssa.Instruction) bool, cut map[edge]bool, st
 				hasIf = ci.Op == token.ILLEGAL && tested[ci.Root] > 1
 			}
 		}
+		// constant knowledge about a phi decides a comparison of that phi with a constant
+		forced := -1
+		if len(n.st.b.Instrs) > 0 {
+			if i, ok := n.st.b.Instrs[len(n.st.b.Instrs)-1].(*ssa.If); ok {
+				ci2 := decompose(i.Cond)
+				if p, ok := ci2.Root.(*ssa.Phi); ok {
+					if kc, ok := n.known[p]; ok {
+						if truth, decided := evalConstCond(kc, ci2); decided {
+							if truth {
+								forced = 0
+							} else {
+								forced = 1
+							}
+						}
+					}
+				}
+			}
+		}
 		for slot, succ := range n.st.b.Succs {
 			if cut[edge{n.st.b, slot}] {
 				continue
+			}
+			if forced >= 0 && slot != forced {
+				continue // infeasible: the phi holds a known constant on this path
 			}
 			as := n.assume
 			if hasIf {
@@ -404,11 +442,44 @@ func reach(start point, target func(ssa.Instruction) bool, cut map[edge]bool, st
 				}
 				as = as2
 			}
-			st := state{succ, keyOf(as)}
+			// phi knowledge for succ: incoming constants along this edge; knowledge about phis of
+			// other blocks survives until their block is re-entered
+			kn := map[*ssa.Phi]*ssa.Const{}
+			for p, c := range n.known {
+				if p.Block() != succ {
+					kn[p] = c
+				}
+			}
+			predIdx := -1
+			for i, p := range succ.Preds {
+				if p == n.st.b {
+					predIdx = i
+				}
+			}
+			if predIdx >= 0 {
+				for _, in := range succ.Instrs {
+					p, ok := in.(*ssa.Phi)
+					if !ok {
+						break
+					}
+					if !cmpPhis[p] {
+						continue
+					}
+					switch e := p.Edges[predIdx].(type) {
+					case *ssa.Const:
+						kn[p] = e
+					case *ssa.Phi:
+						if c, ok := n.known[e]; ok {
+							kn[p] = c
+						}
+					}
+				}
+			}
+			st := state{succ, keyOf(as, kn)}
 			if visited[st] {
 				continue
 			}
-			queue = append(queue, &node{st: st, from: 0, assume: as, prev: n})
+			queue = append(queue, &node{st: st, from: 0, assume: as, known: kn, prev: n})
 		}
 	}
 	return nil, nil
@@ -808,4 +879,35 @@ func isCell(v ssa.Value, name string) bool {
 		return x.Comment == name
 	}
 	return false
+}
+
+// evalConstCond evaluates `known OP const` (or bare truthiness) for a decomposed condition.
+func evalConstCond(known *ssa.Const, ci condInfo) (truth bool, decided bool) {
+	if ci.Op == token.ILLEGAL {
+		b, ok := constBool(known)
+		if !ok {
+			return false, false
+		}
+		return b != ci.Neg, true
+	}
+	if ci.Const == nil || (ci.Op != token.EQL && ci.Op != token.NEQ) {
+		return false, false
+	}
+	var eq bool
+	switch {
+	case known.Value == nil && ci.Const.Value == nil:
+		eq = true
+	case known.Value == nil || ci.Const.Value == nil:
+		eq = false
+	default:
+		if known.Value.Kind() != ci.Const.Value.Kind() {
+			return false, false
+		}
+		eq = constant.Compare(known.Value, token.EQL, ci.Const.Value)
+	}
+	rel := eq
+	if ci.Op == token.NEQ {
+		rel = !eq
+	}
+	return rel != ci.Neg, true
 }
